@@ -58,6 +58,27 @@ func ReplayConc(path string) int {
 		}
 		return 1
 	}
+	var di struct {
+		Replay struct {
+			Kind string        `json:"kind"`
+			Case c34ImportCase `json:"case"`
+		} `json:"replay"`
+	}
+	if err := json.Unmarshal(b, &di); err == nil && di.Replay.Kind == "disordered-import" {
+		verdict, err := c34ReplayDisordered(di.Replay.Case)
+		if err != nil {
+			fmt.Println("ENGINE-ERROR", err)
+			return 2
+		}
+		if len(verdict) == 0 {
+			fmt.Println("replay: oracle silent")
+			return 0
+		}
+		for _, v := range verdict {
+			fmt.Printf("replay: %s: %s\n", v[0], v[1])
+		}
+		return 1
+	}
 	var f concReplayFile
 	if err := json.Unmarshal(b, &f); err == nil && f.Property == "C34" && f.Replay.Scenario == "" && f.Replay.Kind != "" {
 		verdict, err := c34ReplaySequential(f.Replay.c34SeqReplay)
